@@ -25,7 +25,16 @@ type mutantResult struct {
 }
 
 func runMutants(repo, verif, prop string, timeout int) []mutantResult {
-	metas, _ := filepath.Glob(filepath.Join(verif, "seeded", "*", "meta.json"))
+	return runPatched(repo, verif, prop, timeout, filepath.Join(verif, "seeded", "*", "meta.json"))
+}
+
+// runMustPass: behaviour-preserving refactorings kept under seeded/benign must NOT be reported (false-alarm guard).
+func runMustPass(repo, verif, prop string, timeout int) []mutantResult {
+	return runPatched(repo, verif, prop, timeout, filepath.Join(verif, "seeded", "benign", "*", "meta.json"))
+}
+
+func runPatched(repo, verif, prop string, timeout int, glob string) []mutantResult {
+	metas, _ := filepath.Glob(glob)
 	sort.Strings(metas)
 	var out []mutantResult
 	for _, mf := range metas {
@@ -99,7 +108,7 @@ func runMutants(repo, verif, prop string, timeout int) []mutantResult {
 				}
 			}
 			if !res.Detected {
-				res.Note = "NOT DETECTED: " + trunc(strings.ReplaceAll(tail(string(b), 300), "\n", " | "), 300)
+				res.Note = "not reported: " + trunc(strings.ReplaceAll(tail(string(b), 300), "\n", " | "), 300)
 			}
 		}()
 		out = append(out, res)
